@@ -1,4 +1,5 @@
 """C11  Copies are complete, equal to the source and independent of it (structural clauses)."""
+import sympy
 from tsg.facts import DB, strip, txt, callee, call_args, call_object, walk, const_val, short, callee_node
 from tsg.flow import var_of, cond_edges_dominating
 from tsg.iotokens import field_in
@@ -138,20 +139,72 @@ def run(chk):
             chk.saw(f)
             nr += 1
             ib, ie = f.params()[0]["name"], f.params()[1]["name"]
-            writes = []
+            # the stored vector of one sample is followed as a slice [lo, hi) of its old contents through the statements that change it
+            IB, IE, N = sympy.Symbol(ib, integer=True, nonnegative=True), sympy.Symbol(ie, integer=True, nonnegative=True), sympy.Symbol("old_size", integer=True, nonnegative=True)
+
+            def offset(e, tgt):
+                """E for `tgt.begin() + E` / `tgt.data() + E` / plain begin() (0) / end() (size); None when not an iterator into tgt"""
+                e = strip(e)
+                if e is None:
+                    return None
+                if e.get("k") in ("CXXConstructExpr", "CXXFunctionalCastExpr", "CXXBindTemporaryExpr") and len([c for c in e.get("c", []) if isinstance(c, dict)]) == 1:
+                    return offset([c for c in e["c"] if isinstance(c, dict)][0], tgt)       # iterator -> const_iterator conversion
+                if e.get("k") == "CXXMemberCallExpr" and txt(strip(call_object(e)) or {}) == tgt:
+                    nm = (callee(e) or "").rsplit("::", 1)[-1]
+                    return 0 if nm in ("begin", "cbegin", "data") else "end" if nm in ("end", "cend") else None
+                if e.get("k") in ("CXXOperatorCallExpr", "BinaryOperator") and e.get("op") == "+":
+                    ch = [c for c in e.get("c", []) if isinstance(c, dict)]
+                    a, b = (ch[1], ch[2]) if e.get("k") == "CXXOperatorCallExpr" else (ch[0], ch[1])
+                    base = offset(a, tgt)
+                    if base == 0:
+                        try:
+                            return sympy.sympify(txt(strip(b)).replace("(size_t)", "").replace("static_cast<size_t>", ""), locals={ib: IB, ie: IE})
+                        except Exception:
+                            return None
+                return None
+            lo, hi = sympy.Integer(0), N
+            nwr, unknown = 0, None
             for n in walk(f.body):
-                if n.get("k") in ("CXXOperatorCallExpr",) and n.get("op") == "=" and txt(strip(n["c"][1])).endswith(".value"):
-                    writes.append(("assign", n))
-                elif n.get("k") == "CXXMemberCallExpr" and txt(strip(call_object(n)) or {}).endswith(".value") and not (callee_node(n) or {}).get("cm") and not (callee(n) or "").endswith(("::begin", "::end")):
-                    writes.append(("call", n))
-            ok = len(writes) == 1 and writes[0][0] == "assign"
-            detail = "%d write(s) to the sample values" % len(writes)
-            if ok:
-                rhs = writes[0][1]["c"][2]
-                rt = txt(rhs).replace(" ", "")
-                tgt = txt(strip(writes[0][1]["c"][1]))
-                ok = ("%s.begin()+%s" % (tgt, ib)) in rt and ("%s.begin()+%s" % (tgt, ie)) in rt
-                detail = "new value = %s" % txt(rhs)[:90]
+                if n.get("k") == "CXXOperatorCallExpr" and n.get("op") == "=" and txt(strip(n["c"][1])).endswith(".value"):
+                    tgt = txt(strip(n["c"][1]))
+                    nwr += 1
+                    cons = [q for q in [strip(n["c"][2])] + list(walk(n["c"][2])) if q.get("k") in ("CXXTemporaryObjectExpr", "CXXConstructExpr") and len([c for c in q.get("c", []) if isinstance(c, dict)]) >= 2]
+                    offs = [offset(a, tgt) for a in [c for c in cons[0].get("c", []) if isinstance(c, dict)][:2]] if cons else [None, None]
+                    if offs[0] is None or offs[1] is None:
+                        unknown = txt(n)[:80]
+                        break
+                    a_, b_ = (N if o == "end" else o for o in offs)
+                    lo, hi = lo + a_, lo + b_
+                elif n.get("k") == "CXXMemberCallExpr" and txt(strip(call_object(n)) or {}).endswith(".value") and not (callee_node(n) or {}).get("cm") and not (callee(n) or "").endswith(("::begin", "::end", "::data")):
+                    tgt = txt(strip(call_object(n)))
+                    nm = (callee(n) or "").rsplit("::", 1)[-1]
+                    args = call_args(n)
+                    nwr += 1
+                    if nm == "resize" and len(args) == 1:
+                        try:
+                            hi = lo + sympy.sympify(txt(strip(args[0])).replace("(size_t)", "").replace("static_cast<size_t>", ""), locals={ib: IB, ie: IE})
+                        except Exception:
+                            unknown = txt(n)[:80]
+                            break
+                    elif nm == "erase" and len(args) == 2:
+                        a_, b_ = offset(args[0], tgt), offset(args[1], tgt)
+                        if a_ is None or b_ is None:
+                            unknown = txt(n)[:80]
+                            break
+                        if b_ == "end":
+                            hi = lo + a_
+                        elif a_ == 0:
+                            lo = lo + b_
+                        else:
+                            unknown = txt(n)[:80]
+                            break
+                    else:
+                        unknown = txt(n)[:80]
+                        break
+            if unknown is not None:
+                raise AnalysisBroken("restrictData of %s changes the sample values in a form the slice model does not know: %s" % (cls, unknown))
+            ok = nwr >= 1 and sympy.simplify(lo - IB) == 0 and sympy.simplify(hi - IE) == 0
+            detail = "%d write(s); every sample becomes old[%s, %s)" % (nwr, lo, hi)
             chk.ob("C11-D2.split", cls, "restrictData keeps entries [ibegin, iend) of every sample", ok, f.where, detail)
             rec = db.record(cls)
             if any(fl["name"] == "num_outputs" for fl in rec["fields"]):
@@ -182,7 +235,6 @@ def run(chk):
     # ------------------------------------------------------------------ D6 shape of the split containers
     chk.rule("C11-D6.shape", "the container returned by splitData / splitValues has stride iend - ibegin, the strip count of its source and the data produced by spltVector2D(source data, "
                              "source stride, ibegin, iend): the object is followed through constructor initialiser lists and member assignments to the returned value")
-    import sympy
     from tsg.sym import to_sympy, NotClosedForm
 
     def record_eval(f):
@@ -378,7 +430,6 @@ def run(chk):
     chk.rule("C11-D8.range", "copyGrid documents that an end of the output range outside of the outputs selects all remaining outputs: the statements before the destination is cleared are folded "
                              "for 1 and 4 source outputs and ends from -7 to N+9; the end that reaches the copy constructors is the given one when 0 <= end <= N and N otherwise; a first output below 0 or beyond that end is rejected "
                              "by a throw before the destination is touched")
-    import sympy
     from tsg.peval import ArrayPEval
     from tsg.sym import NotClosedForm
     prm = {p_.get("name"): p_ for p_ in cg.params()}
